@@ -330,9 +330,15 @@ func (h *HarnessRun) runPath(sv *Solver, prefix []decision, wc *workerCache) (it
 				switch x := r.(type) {
 				case *pathEnd:
 					end, msg = x.kind, x.msg
+					if x.kind == "unsupported" && os.Getenv("GOSYM_STACK") != "" {
+						msg += " @ " + it.callStack()
+					}
 				case *goPanic:
 					// an uncaught Go panic in the code under test is a violation of the implicit no-panic obligation
 					end, msg = "panic", x.msg+" @"+x.pos
+					if os.Getenv("GOSYM_STACK") != "" {
+						msg += " @ " + it.callStack()
+					}
 					func() {
 						defer func() {
 							if r2 := recover(); r2 != nil {
